@@ -124,65 +124,79 @@ Proof. exact range_suffix_example. Qed.
     iteration and VALIDATED by the check.  Soundness, once and for all, for every grammar, program and certificate: *)
 Theorem C04_complete_checker_sound : forall G p C fuel, check_complete G p C fuel = true ->
   forall M f w, cc_mode C f = Some M -> (f < List.length (fns p))%nat -> derives G M w ->
-  forall k rest e en, In k (cc_fol C M) ->
-    exists m, texec m p (ECall f None) en (mk_ts (w ++ k :: rest) e) = TVal (VB true) en (mk_ts (k :: rest) e).
+  forall tail e en, In (hdT tail) (cc_fol C M) ->
+    exists m, texec m p (ECall f None) en (mk_ts (w ++ tail) e) = TVal (VB true) en (mk_ts tail e).
 Proof. exact check_complete_sound. Qed.
 Print Assumptions C04_complete_checker_sound.
+(** [hdT tail] = the first token of what follows the word, or T_Eof when nothing follows (end of input) *)
+Check (eq_refl : hdT [] = T_Eof).
 
 (** Instance: the generated grammar program against the documented grammar (doc_rules_must = syntax.md + rule comments minus
-    the rejects:* deltas).  [comp_covered] = 61 (nonterminal, function) pairs.  For the 55 nonterminals that cannot reach `If`
-    ([comp_iffree]) the statement is about the documented grammar itself: EVERY word w of the nonterminal, every follower
-    k in its FOLLOW set [comp_followers] (computed; validated), every rest of input, every parser state whose upcoming tokens
-    are  w ++ k :: rest : the function returns true, has consumed exactly w and recorded NO error (or the model panics:
-    excluded by C02), for all sufficiently large fuels. *)
+    the rejects:* deltas).  [comp_covered] = 63 (nonterminal, function) pairs.  For the 55 nonterminals that cannot reach `If`
+    ([comp_iffree]) the statement is about the documented grammar itself: EVERY word w of the nonterminal, every rest of
+    input [tail] whose first token (or the end of input) is in the FOLLOW set [comp_followers] (computed; validated), every
+    parser state whose upcoming tokens are  w ++ tail : the function returns true, has consumed exactly w and recorded NO
+    error (or the model panics: excluded by C02), for all sufficiently large fuels. *)
 Theorem C04_complete_all : forall m f, In (m, f) comp_covered -> In m comp_iffree ->
-  forall w, derives doc_rules_must m w -> forall k rest, In k (comp_followers m) ->
-  exists n0, forall n s, (n0 <= n)%nat -> Toks s (w ++ k :: rest) -> after_err s = false ->
+  forall w, derives doc_rules_must m w -> forall tail, In (hdT tail) (comp_followers m) ->
+  forall s, Toks s (w ++ tail) -> after_err s = false ->
+  exists n0, forall n, (n0 <= n)%nat ->
     match gexec n grammar_prog (ECall f None) [] s with
     | RPanic => True
-    | RVal v _ s' => v = VB true /\ Toks s' (k :: rest) /\ nerr s' = nerr s /\ after_err s' = false
+    | RVal v _ s' => v = VB true /\ Toks s' tail /\ nerr s' = nerr s /\ after_err s' = false
     | _ => False
     end.
 Proof. exact comp_complete_doc. Qed.
 Print Assumptions C04_complete_all.
-(** For the other 6 covered nonterminals (they contain statements) the same holds for [comp_grammar] = the documented grammar
+(** For the other 8 covered nonterminals (they contain statements) the same holds for [comp_grammar] = the documented grammar
     with the rule of `If` emptied, i.e. for programs without `if` statements: `if c then if d then X else Y` makes the
     documented grammar ambiguous (dangling else), so "consumes exactly a word of If, whatever admissible token follows" is
     false for the follower `else`.  [comp_grammar] only has fewer words ([C04_complete_iffree_sub]). *)
 Theorem C04_complete_iffree : forall m f, In (m, f) comp_covered ->
-  forall w, derives comp_grammar m w -> forall k rest, In k (comp_followers m) ->
-  exists n0, forall n s, (n0 <= n)%nat -> Toks s (w ++ k :: rest) -> after_err s = false ->
+  forall w, derives comp_grammar m w -> forall tail, In (hdT tail) (comp_followers m) ->
+  forall s, Toks s (w ++ tail) -> after_err s = false ->
+  exists n0, forall n, (n0 <= n)%nat ->
     match gexec n grammar_prog (ECall f None) [] s with
     | RPanic => True
-    | RVal v _ s' => v = VB true /\ Toks s' (k :: rest) /\ nerr s' = nerr s /\ after_err s' = false
+    | RVal v _ s' => v = VB true /\ Toks s' tail /\ nerr s' = nerr s /\ after_err s' = false
     | _ => False
     end.
 Proof. exact comp_complete_model. Qed.
 Print Assumptions C04_complete_iffree.
+(** WHOLE FILES: a text whose token sequence (no leading trivia, no lexical error token) is a sentence of the documented
+    grammar without `if` statements is parsed by the parser model with ZERO errors - or the model panics (excluded by C02).
+    Together with C04_errors_or_sentence this is the property C04 for if-free programs, on the model. *)
+Theorem C04_complete_parse : forall txt w, Toks (p_new txt) w -> derives comp_grammar nt_SourceFile w ->
+  exists n0, forall n, (n0 <= n)%nat ->
+    parse_with n grammar_prog grammar_entry txt = ParsePanic \/
+    exists t st, parse_with n grammar_prog grammar_entry txt = ParseOk t [] st.
+Proof. exact comp_complete_parse. Qed.
+Print Assumptions C04_complete_parse.
+Example C04_complete_parse_nonvacuous :
+  Toks (p_new comp_example_text) ([T_Def] ++ [T_Id] ++ [T_Semi]) /\ derives comp_grammar nt_SourceFile ([T_Def] ++ [T_Id] ++ [T_Semi]).
+Proof. exact (conj comp_example_toks comp_example_sentence). Qed.
 Theorem C04_complete_iffree_sub : forall n w, derives comp_grammar n w -> derives doc_rules_must n w.
 Proof. exact comp_grammar_sub. Qed.
 (** precisely what is covered *)
-Example C04_complete_covered_doc : comp_covered_doc_names =
+Example C04_complete_covered_doc : same_strings comp_covered_doc_names
   ["Include"; "String"; "Assert"; "Value"; "InnerValue"; "SimpleValue"; "Integer"; "Code"; "Boolean"; "Uninitialized"; "Bits"; "List";
    "Type"; "BitType"; "IntType"; "StringType"; "DagType"; "BitsType"; "ListType"; "CodeType"; "ClassId"; "Identifier"; "Dag"; "DagArg";
    "ClassValue"; "ArgValueList"; "BangOperator"; "CondOperator"; "CondClause"; "RangeSuffix"; "RangeList"; "RangePiece"; "SliceSuffix";
    "SliceElements"; "SliceElement"; "FieldSuffix"; "Class"; "TemplateArgList"; "TemplateArgDecl"; "RecordBody"; "ParentClassList";
    "ClassRef"; "Body"; "BodyItem"; "FieldDef"; "FieldLet"; "Defvar"; "Dump"; "Def"; "NameValue"; "Defm"; "ForeachIterator";
-   "ForeachIteratorInit"; "LetList"; "LetItem"]%string.
+   "ForeachIteratorInit"; "LetList"; "LetItem"]%string = true.
 Proof. vm_compute. reflexivity. Qed.
-Example C04_complete_covered_iffree_only : comp_covered_iffree_only_names =
-  ["Statement"; "Defset"; "Foreach"; "Let"; "MultiClass"; "MultiClassStatement"]%string.
+Example C04_complete_covered_iffree_only : same_strings comp_covered_iffree_only_names
+  ["SourceFile"; "StatementList"; "Statement"; "Defset"; "Foreach"; "Let"; "MultiClass"; "MultiClassStatement"]%string = true.
 Proof. vm_compute. reflexivity. Qed.
-(** NOT covered: If (ambiguity above), SourceFile / the top-level StatementList (their follower is the end of input, the
-    theorems need one unread token), and the helper rules no function parses (they are unfolded inside the others).
-    Followers, e.g.: *)
+(** NOT covered: If (ambiguity above); the helper rules no function parses are unfolded inside the others.  Followers, e.g.: *)
 Example C04_complete_followers_value :
-  (match nt_index "Value"%string with Some m => comp_followers m | None => [] end) =
-  [T_Then; T_In; T_Equal; T_Greater; T_Semi; T_DotDotDot; T_Minus; T_IntVal; T_BinaryIntVal; T_RBrace; T_RSquare; T_Colon; T_Comma; T_RParen].
+  same_kinds (match nt_index "Value"%string with Some m => comp_followers m | None => [] end)
+  [T_Then; T_In; T_Equal; T_Greater; T_Semi; T_DotDotDot; T_Minus; T_IntVal; T_BinaryIntVal; T_RBrace; T_RSquare; T_Colon; T_Comma; T_RParen] = true.
 Proof. vm_compute. reflexivity. Qed.
 Example C04_complete_followers_statement :
-  (match nt_index "Statement"%string with Some m => comp_followers m | None => [] end) =
-  [T_Include; T_Class; T_Defset; T_Defvar; T_MultiClass; T_If; T_Assert; T_Def; T_Defm; T_Dump; T_Foreach; T_Let; T_RBrace].
+  same_kinds (match nt_index "Statement"%string with Some m => comp_followers m | None => [] end)
+  [T_Include; T_Class; T_Defset; T_Defvar; T_MultiClass; T_If; T_Eof; T_Assert; T_Def; T_Defm; T_Dump; T_Foreach; T_Let; T_RBrace] = true.
 Proof. vm_compute. reflexivity. Qed.
 (** non-vacuity: `x # 1` is a word of Value, `def x ;` a word of Def *)
 Example C04_complete_value_word : derives doc_rules_must (match nt_index "Value"%string with Some m => m | None => 0 end)
